@@ -248,6 +248,16 @@ class System:
         self.auts[name] = aut
         return aut
 
+    def add_seq(self, name: str, seq, flags: int, mid_start: bool = False) -> 'Aut':
+        """Add an automaton for an already parsed (possibly rewritten) item sequence."""
+        if self.atoms is not None:
+            raise RuntimeError('alphabet already frozen')
+        s = self.nfa.new()
+        f = self.build(seq, s, flags)
+        aut = Aut(self, name, s, f, {}, mid_start, '<seq>')
+        self.auts[name] = aut
+        return aut
+
     def build(self, seq, q, flags):
         for op, av in seq:
             q = self.node(op, av, q, flags)
@@ -1072,3 +1082,44 @@ def analyse_eda(pattern: str, flags: int = 0, mid_start: bool = False):
     s.freeze()
     f = a.find_eda()
     return s, a, f
+
+
+def parse(pattern: str, flags: int = 0):
+    """(items, effective flags, groupdict) of a pattern."""
+    tree = sp.parse(pattern, flags)
+    return tree, tree.state.flags, dict(tree.state.groupdict)
+
+
+def branch_alternatives(seq, gid):
+    """If group `gid` consists of a single BRANCH, return one rewritten copy of `seq` per alternative (the group
+    restricted to that alternative); else None."""
+    found = find_group(seq, gid)
+    if found is None:
+        return None
+    sub, _ = found
+    items = list(sub)
+    if len(items) != 1 or items[0][0] is not sc.BRANCH:
+        return None
+    alts = items[0][1][1]
+
+    def rewrite(s, alt):
+        out = []
+        for op, av in s:
+            if op is sc.SUBPATTERN:
+                g, add, dele, inner = av
+                if g == gid:
+                    out.append((op, (g, add, dele, list(alt))))
+                else:
+                    out.append((op, (g, add, dele, rewrite(inner, alt))))
+            elif op is sc.BRANCH:
+                out.append((op, (av[0], [rewrite(a, alt) for a in av[1]])))
+            elif op in (sc.MAX_REPEAT, sc.MIN_REPEAT, getattr(sc, 'POSSESSIVE_REPEAT', None)):
+                out.append((op, (av[0], av[1], rewrite(av[2], alt))))
+            elif op in (sc.ASSERT, sc.ASSERT_NOT):
+                out.append((op, (av[0], rewrite(av[1], alt))))
+            elif op is getattr(sc, 'ATOMIC_GROUP', None):
+                out.append((op, rewrite(av, alt)))
+            else:
+                out.append((op, av))
+        return out
+    return [rewrite(seq, a) for a in alts]
